@@ -336,7 +336,11 @@ RULE = ("hooks, exhaustive on finite sub-domains: function-module matrix and pla
         "every byte value alone and in context, cap-1/cap/cap+1 characters of version x level x mode (all 1440 in thorough, "
         "seeded subset in quick; explicit mode and Auto), beyond-capacity, random lengths, unknown level/mode constants, 6 colour "
         "schemes. Each render is compared with the model's 8 mask candidates (any valid mask accepted) and read back by the "
-        "extracted reference reader; non-trivial = an encode that returned OK or ERR; distinct = distinct case line")
+        "extracted reference reader; non-trivial = an encode that returned OK or ERR; distinct = distinct case line. "
+        "Informational (never a violation, the mask is free): coverage.mask_choice compares Encode with the model "
+        "including the penalty-based mask selection (qr_encode_auto) on accepted contents of all levels / modes / Auto, "
+        "versions 1..10 + large ones (quick ~150, thorough ~3000); coverage.penalty_rules compares calcPenaltyRule1..4 "
+        "with the model on structured / random matrices and real symbols")
 
 
 # ---------------------------------------------------------------------------
@@ -421,11 +425,141 @@ def coq_case(line, impl_out):
     return "KSkip"
 
 
+# ---------------------------------------------------------------------------
+# informational phases: the mask render() selects.  C01 leaves the mask free (every candidate of the
+# model is accepted by `compare` above), so nothing here is ever a violation; the phases only record
+# whether the implementation's penalty rules / selection still agree with model/QRMPenalty.v.
+def mask_choice_cases(tier, rng):
+    """accepted contents "<level> <mode> <content hex>": all 4 levels, Numeric / AlphaNumeric / Unicode and
+    Auto, versions 1..10 (quick) resp. 1..40 (thorough), special strings, two (thorough: 24) large ones"""
+    quick = tier == "quick"
+    out = []
+
+    def one(v, l, m, auto):
+        cap, prev = capacity(m, l, v), (capacity(m, l, v - 1) if v > 1 else -1)
+        n = rng.randrange(max(prev + 1, 0), cap + 1)       # a length that needs exactly version v
+        out.append("%d %d %s" % (l, 0 if auto else m, hx(content_for(m, n, rng))))
+    k = 0
+    for v in range(1, 11):
+        for l in range(4):
+            for m in (1, 2, 3):
+                one(v, l, m, k % 3 == 2)                    # every third case through Auto
+                k += 1
+    for c in SPECIAL[:26]:
+        out.append("%d %d %s" % (rng.randrange(4), rng.choice([0, 3]), hx(c)))
+    big = [(40, 0, 3, False), (27, 2, 2, True)] if quick else \
+        [(rng.randrange(28, 41), rng.randrange(4), rng.choice([1, 2, 3]), rng.random() < 0.5) for _ in range(24)]
+    for (v, l, m, a) in big:
+        one(v, l, m, a)
+    if not quick:
+        while len(out) < 3000:
+            v = rng.choice([rng.randrange(1, 8), rng.randrange(1, 16), rng.randrange(1, 28)])
+            one(v, rng.randrange(4), rng.choice([1, 2, 3]), rng.random() < 0.4)
+    return out
+
+
+def _sq(n, f):
+    return "/".join("".join("1" if f(x, y) else "0" for x in range(n)) for y in range(n))
+
+
+def penalty_matrices(tier, rng, symbols):
+    """square matrices for the direct comparison of calcPenaltyRule1..4: uniform / striped / checkered / blocks,
+    the two 1011101-with-quiet-zone patterns tiled along x and along y, random fills of several densities
+    (rule 4 steps), long runs, plus real symbols the implementation produced"""
+    quick = tier == "quick"
+    p1, p2 = "10111010000", "00001011101"
+    mats = []
+    for n in ([1, 2, 5, 10, 11, 12, 21, 33] if quick else [1, 2, 3, 4, 5, 6, 10, 11, 12, 13, 21, 22, 25, 29, 45, 57, 101, 177]):
+        mats += [_sq(n, lambda x, y: False), _sq(n, lambda x, y: True), _sq(n, lambda x, y: (x + y) % 2 == 0),
+                 _sq(n, lambda x, y: x % 2 == 0), _sq(n, lambda x, y: y % 3 == 0), _sq(n, lambda x, y: (x // 5 + y // 6) % 2 == 0),
+                 _sq(n, lambda x, y: (p1 * 17)[x] == "1"), _sq(n, lambda x, y: (p2 * 17)[y] == "1"),
+                 _sq(n, lambda x, y: ((p1 + p2) * 17)[(x + 3 * y) % 22] == "1"), _sq(n, lambda x, y: x < y)]
+    for _ in range(30 if quick else 500):
+        n = rng.choice([rng.randrange(1, 14), rng.randrange(11, 40), rng.randrange(21, 60 if quick else 178)])
+        d = rng.choice([0.02, 0.1, 0.2, 0.3, 0.4, 0.45, 0.5, 0.55, 0.6, 0.7, 0.8, 0.9, 0.98])
+        if rng.random() < 0.3:      # long runs: each line repeats its previous cell with high probability
+            keep = rng.choice([0.7, 0.9])
+            rows = []
+            for y in range(n):
+                r, c = [], rng.random() < d
+                for x in range(n):
+                    if rng.random() > keep:
+                        c = rng.random() < d
+                    r.append("1" if c else "0")
+                rows.append("".join(r))
+            m = "/".join(rows)
+            if rng.random() < 0.5:  # the same along the other axis
+                m = "/".join("".join(rows[x][y] for x in range(n)) for y in range(n))
+            mats.append(m)
+        else:
+            mats.append(_sq(n, lambda x, y: rng.random() < d))
+    symbols = [s for s in symbols if s]
+    rng.shuffle(symbols)
+    return mats + symbols[:20 if quick else 300]
+
+
+def mask_phases(rep, impl_exe, model_exe, tier):
+    rng = rng_for(rep.seed, "C01-mask-choice")           # own stream: the other phases keep their cases
+    shards = NCPU if tier == "thorough" else min(NCPU, 8)
+    args = mask_choice_cases(tier, rng)
+    io = run_lines(impl_exe, ["qr " + a for a in args], shards)
+    mo = run_lines(model_exe, ["qrauto " + a for a in args], shards)
+    n = k = 0
+    diffs, symbols = [], []
+    for a, i, m in zip(args, io, mo):
+        if not (i or "").startswith("OK "):
+            continue                                        # refused / crashed: the main phases deal with it
+        n += 1
+        symbols.append(_rows(i))
+        if i == m:
+            k += 1
+        elif len(diffs) < 5:
+            ex = {"case": "qr " + a[:200]}
+            try:
+                ex["implementation_mask"] = _mask_of(_rows(i))
+                ex["model_mask"] = _mask_of(_rows(m)) if (m or "").startswith("OK ") else (m or "")[:40]
+            except (IndexError, ValueError, AttributeError):
+                pass
+            diffs.append(ex)
+    rep.cov["mask_choice"] = {"compared": n, "same_symbol": k, "different_mask": n - k, "examples_of_difference": diffs,
+                              "note": "informational only: C01 accepts any of the 8 masks"}
+    mats = penalty_matrices(tier, rng, symbols)
+    # the penalty hook lives in its own file with its own extra build tag (qr/verif_penalty.go, verif_penalty), so
+    # that a renamed penalty function can only switch this informational comparison off, never break a check
+    pen_exe = os.path.join(BUILD, "impl_C01pen")
+    with Lock("impl_C01pen"):
+        rc, out = sh(["go", "build", "-tags", "verif verif_penalty", "-o", pen_exe, "main.go", "util.go", "qrpen.go"],
+                     cwd=os.path.join(VERIF, "go", "impl"), env=GOENV, timeout=900)
+    if rc != 0:
+        rep.cov["penalty_rules"] = {"compared": 0, "note": "penalty hook no longer compiles: " + first_error(out)[:200]}
+        return
+    po = run_lines(pen_exe, ["qrpen " + m for m in mats], shards)
+    qo = run_lines(model_exe, ["qrpen " + m for m in mats], shards)
+    pn = pk = 0
+    pdiff = []
+    for mt, a, b in zip(mats, po, qo):
+        if not re.fullmatch(r"\d+( \d+){4}", a or ""):
+            continue                                        # hook not available (public-API fallback)
+        pn += 1
+        if a == b:
+            pk += 1
+        elif len(pdiff) < 3:
+            pdiff.append({"matrix": mt[:400], "implementation_rules_1_2_3_4_total": a, "model_rules_1_2_3_4_total": (b or "")[:60]})
+    rep.cov["penalty_rules"] = {"compared": pn, "equal": pk, "examples_of_difference": pdiff}
+
+
 def extra(rep, impl_exe, model_exe, rng, tier):
     # returned symbols stay what they were; results do not depend on what was encoded before
     import held
     v = held.held_phase(rep, impl_exe, rng, ["qr 0 0", "qr 1 1", "qr 2 2", "qr 3 3"], n=8 if tier == "quick" else 60)
-    return v + held.qr_adversarial_phase(rep, impl_exe, rng, tier, held.run_fresh_each)
+    v = v + held.qr_adversarial_phase(rep, impl_exe, rng, tier, held.run_fresh_each)
+    # which mask is selected: recorded, never a violation
+    try:
+        if model_exe:
+            mask_phases(rep, impl_exe, model_exe, tier)
+    except Exception as e:       # an informational phase must not change the verdict
+        rep.cov["mask_choice"] = {"error": repr(e)[:300]}
+    return v
 
 
 def public_line(line):
